@@ -62,7 +62,13 @@ def prepare():
 # ----------------------------------------------------------------------------- native side
 def native_run(fn, hexin, prof='debug', timeout=20):
     """-> (kind, info): ('ok', ret, heap) | ('fail', code) | ('assume',) | ('abort', rc) | ('hang',)"""
-    rc, out, t = run([replay_bin(prof), fn, hexin], timeout=timeout)
+    if len(hexin) > 100000:
+        os.makedirs(os.path.join(BUILD, 'tmp'), exist_ok=True)
+        path = os.path.join(BUILD, 'tmp', 'big_%d.hex' % os.getpid())
+        open(path, 'w').write(hexin)
+        rc, out, t = run([replay_bin(prof), fn, '@' + path], timeout=max(timeout, 120))
+    else:
+        rc, out, t = run([replay_bin(prof), fn, hexin], timeout=timeout)
     last = out.strip().splitlines()[-1] if out.strip() else ''
     if rc == 'timeout':
         return ('hang',)
@@ -194,6 +200,17 @@ def run_checks(specs, tier, seed):
     def progress(k, agg):
         log('[E2] %-34s paths=%-7d steps=%-10d queries=%-7d %.1fs ends=%s' % (specs[k]['name'], agg['paths'], agg['steps'], agg['queries'], agg['wall_s'], dict(agg['ends'])))
     aggs = explore.explore_many(specs, _ll_files, NCPU, progress=progress)
+    # stack-growth groups: the same check on inputs that differ only in the length of a concrete filler must reach the same
+    # call depth; a depth that grows with the input length means stack use proportional to the stream length
+    depth_by_group = {}
+    for sp, agg in zip(specs, aggs):
+        if sp.get('depth_group'):
+            depth_by_group.setdefault(sp['depth_group'], []).append((len(sp['input']), agg.get('max_depth', 0), sp))
+    grown = {}
+    for gname, items in depth_by_group.items():
+        items.sort(key=lambda t: t[0])
+        if len(items) >= 2 and items[-1][1] > items[0][1]:
+            grown[gname] = (items[0][1], items[-1][1])
     for sp, agg in zip(specs, aggs):
         r = {'name': sp['name'], 'fn': sp['fn'], 'wall_s': agg['wall_s'], 'paths': agg['paths'], 'ir_steps': agg['steps'],
              'solver_queries': agg['queries'], 'solver_s': round(agg['solver_s'], 2), 'ends': agg['ends'], 'covers': agg['covers'],
@@ -234,6 +251,17 @@ def run_checks(specs, tier, seed):
                 r['violations'].append({'message': '%s: %s' % (sp['name'], what), 'input_hex': v['input_hex'], 'fn': sp['fn'], 'native': v['native'], 'kind': v['kind'], 'info': str(v['info'])})
             else:
                 incon.append('model did not reproduce natively: %s %s input=%s native=%s' % (v['kind'], v['info'], v['input_hex'][:80], rep))
+        r['max_call_depth'] = agg.get('max_depth', 0)
+        gname = sp.get('depth_group')
+        if gname in grown and sp is depth_by_group[gname][-1][2]:
+            lo, hi = grown[gname]
+            big = '00' * sp['scale_input'][0] + sp['scale_input'][1]
+            rep = native_replay(sp['fn'], big)
+            r['traces_validated'] += 1
+            if reproduced(rep):
+                r['violations'].append({'message': '%s: call depth grows with the input length (%d -> %d IR frames): stack use proportional to the stream; the native run on a %d-byte stream aborts' % (sp['name'], lo, hi, len(big) // 2), 'input_hex': big[:200] + '...(%d bytes of filler)' % (len(big) // 2), 'fn': sp['fn'], 'native': {k: list(x)[:2] for k, x in rep.items()}, 'kind': 'budget', 'info': 'stack growth', 'scale_input': list(sp['scale_input'])})
+            else:
+                incon.append('call depth grows with the input length (%d -> %d) but the scaled native run did not abort: %s' % (lo, hi, {k: x[:2] for k, x in rep.items()}))
         r['status'] = 'fail' if r['violations'] else ('inconclusive' if incon else 'pass')
         if incon:
             r['why'] = ' | '.join(incon[:4])
